@@ -65,6 +65,9 @@ pub struct Agg {
     pub certificates_ok: u64,
     pub states_checked: u64,
     pub runs_with_states: u64,
+    /// diagnostic only: runs in which some intermediate D-set of simplify
+    /// failed the manifold / H1-sum invariant (kind -> count)
+    pub bad_intermediate_states: BTreeMap<String, u64>,
     pub distinct_inputs: BTreeSet<u64>,
     /// (input, output) fingerprints of runs that got past the invariant
     /// filter / reached simplify (fallback measure without the hook build)
@@ -168,6 +171,10 @@ impl Agg {
         if rec.states_checked > 0 {
             self.states_checked += rec.states_checked as u64;
             self.runs_with_states += 1;
+        }
+        if let Some(b) = &rec.first_bad_state {
+            let kind = if b.ends_with("empty") { "became empty (result None)" } else if b.contains("sum of H1") { "H1 sum changed" } else { "not a manifold" };
+            bump(&mut self.bad_intermediate_states, kind);
         }
         // decision coverage
         if !rec.decisions.is_empty() {
